@@ -328,9 +328,34 @@ def class_pairs():
         bad = base % "" + "function main() -> void { A a = new A(); %s }" % use
         good = base % "" + "function main() -> void { A a = new A(); %s }" % use.replace("a.p", "a.f").replace("a.q", "a.f")
         P.append(("private/protected member used outside its class", pos, bad, good))
-    sub = "class B extends A { public constructor() -> B { super(); } public function g() -> int { return %s; } }\n"
-    P.append(("private member used in a subclass", "method", base % "" + sub % "this.p" + "function main() -> void { }",
-              base % "" + sub % "this.q" + "function main() -> void { }"))
+    # a private field of the base, used in a subclass: every route (read / write, this. / bare / another receiver / postfix) x every member kind
+    # (method, constructor, static method, loop header); the repaired twin uses the protected field
+    routes = [("this.f read", "int z = this.%s;"), ("this.f write", "this.%s = 42;"), ("this.f nested write", "echo(this.%s = 42);"),
+              ("bare read", "int z = %s;"), ("bare write", "%s = 42;"), ("bare nested write", "echo(%s = 42);"), ("bare postfix", "%s++;"),
+              ("other.f read", "int z = o.%s;"), ("other.f write", "o.%s = 42;"), ("other.f nested write", "echo(o.%s = 42);"),
+              ("this.f write in loop step", "for (int i = 0; i < 1; this.%s = 2) { i = i + 1; }"),
+              ("other.f write in loop step", "for (int i = 0; i < 1; o.%s = 2) { i = i + 1; }")]
+    for rname, tmpl in routes:
+        members = [("method", "public function g(B o) -> void { %s }")]
+        if "this" not in tmpl and not tmpl.startswith(("int z = %s", "%s", "echo(%s")):
+            members.append(("static method", "public static function g(B o) -> void { %s }"))
+        members.append(("constructor", "public constructor(B o) -> B { super(); %s }"))
+        for mname, mt in members:
+            subc = "class B extends A { public constructor() -> B { super(); } %s }\n"
+            bad = base % "" + subc % (mt % (tmpl % "p")) + "function main() -> void { }"
+            good = base % "" + subc % (mt % (tmpl % "q")) + "function main() -> void { }"
+            P.append(("private field used in a subclass", "%s / %s" % (rname, mname), bad, good))
+        # the same routes from an unrelated class: private and protected both forbidden, public fine
+        if rname.startswith("other"):
+            unrel = "class U { public constructor() -> U { } public function g(A o) -> void { %s } }\n"
+            for fld in ("p", "q"):
+                P.append(("private/protected field used in an unrelated class", "%s / %s" % (rname, fld),
+                          base % "" + unrel % (tmpl % fld) + "function main() -> void { }", base % "" + unrel % (tmpl % "f") + "function main() -> void { }"))
+    # a class may use its own private field through a receiver of a subclass type
+    P.append(("private field used outside its class", "own private field through a subclass-typed receiver",
+              base % "" + "class U { public constructor() -> U { } public function g(A o) -> void { o.p = 1; } }\nfunction main() -> void { }",
+              "class B extends A { public constructor() -> B { super(); } }\n" + base % "public function viaSub(B b) -> void { b.p = 5; int z = b.p; this.p = b.p; }"
+              + "function main() -> void { }"))
     # private / protected METHODS, by every route and in several positions
     mbase = "class A { public constructor() -> A { } private function secret() -> int { return 7; } protected function prot() -> int { return 8; } " \
             "public function open() -> int { return 9; } %s }\n"
